@@ -34,7 +34,7 @@ var slotConsumerNames = []string{
 	"InNG_K0", "InNG_S4", "InKK_K0", "InKU_K0", "InUK_K2", "InAnon_K0", "InAnon_S4", "InAnon_K2",
 	"InSp_K0", "InGG_K0", "InSG_K0", "TwiceIn_K2", "Twice_K0", "Twice_S4", "InIgn_K0", "InIgn_S4",
 	"InEmb_K0", "InEmb_S4", "InEmb_K2", "InEmb_S5", "VoidIn", "MR_K0K1_d", "OutP_K2K3_d", "MR_K2K3e",
-	"RetI_K1", "BIdep_S6", "InLast_K0", "InLast_S4", "OutLast_K2K3", "CloDep_K2_a", "CloDep_K2_b", "CloIn_K3_a", "CloIn_K3_b",
+	"RetI_K1", "BIdep_S6", "InLast_K0", "InLast_S4", "OutLast_K2K3", "InIgnMid_K0", "InIgnMid_S4", "CloDep_K2_a", "CloDep_K2_b", "CloIn_K3_a", "CloIn_K3_b",
 }
 
 type slotIdent struct{ T, Key, Group string }
